@@ -100,8 +100,35 @@ func (h c20Harness) String() string {
 	return s
 }
 
+// c20WatchFile: a real file that every load callback registers as a watched file; "edit" rewrites it (with a
+// different length each time) so that a context in watch mode sees the edit through its watcher goroutine.
+var c20WatchFile = func() string {
+	dir := scratchRoot("c20w")
+	os.MkdirAll(dir, 0o755)
+	return filepath.Join(dir, fmt.Sprintf("watched-%d.txt", os.Getpid()))
+}()
+
+func c20WriteWatched(version int) {
+	os.WriteFile(c20WatchFile, []byte(fmt.Sprintf("v%d%s", version, strings.Repeat("x", version))), 0o644)
+}
+
+func (h c20Harness) usesWatch() bool {
+	for _, t := range h.threads {
+		for _, op := range t {
+			if op == "watch" {
+				return true
+			}
+		}
+	}
+	return false
+}
+
 func c20Run(h c20Harness, choose func(p *vsync.Point) int) (vsync.Result, *c20World) {
 	w := &c20World{onEndSeen: map[int]string{}}
+	watching := h.usesWatch()
+	if watching {
+		c20WriteWatched(0)
+	}
 	var res vsync.Result
 	res = vsync.Run(func() {
 		plugin := api.Plugin{Name: "verif", Setup: func(b api.PluginBuild) {
@@ -144,7 +171,11 @@ func c20Run(h c20Harness, choose func(p *vsync.Point) int) (vsync.Result, *c20Wo
 				if name == "entry" {
 					src = "import {dep} from 'virtual:dep'; import {dep2} from 'virtual:dep2'; console.log(dep, dep2);" + src
 				}
-				return api.OnLoadResult{Contents: &src, ResolveDir: "/"}, nil
+				r := api.OnLoadResult{Contents: &src, ResolveDir: "/"}
+				if watching {
+					r.WatchFiles = []string{c20WatchFile}
+				}
+				return r, nil
 			})
 			b.OnEnd(func(r *api.BuildResult) (api.OnEndResult, error) {
 				vsync.UserPoint("onEnd1")
@@ -191,7 +222,13 @@ func c20Run(h c20Harness, choose func(p *vsync.Point) int) (vsync.Result, *c20Wo
 						w.ev("return", op, inv, "")
 					case "edit":
 						w.version++
+						if watching {
+							c20WriteWatched(w.version)
+						}
 						w.ev("return", op, inv, "")
+					case "watch":
+						err := ctx.Watch(api.WatchOptions{})
+						w.ev("return", op, inv, fmt.Sprint(err))
 					}
 				}
 				wg.Done()
@@ -433,6 +470,19 @@ func c20Harnesses(tier string) []c20Harness {
 			hs = append(hs, c20Harness{threads: [][]string{{"rebuild"}, b}, fail: f})
 		}
 	}
+	// watch mode: the watcher goroutine polls on a (virtual) timer and rebuilds on its own after an edit
+	watchers := [][]string{{"watch"}, {"watch", "edit"}, {"edit", "watch"}, {"watch", "rebuild"}}
+	others := c20Words(1, c20Alphabet)
+	others = append(others, []string{"edit", "dispose"}, []string{"dispose", "rebuild"}, []string{"cancel", "dispose"}, []string{"edit", "cancel"}, []string{"edit", "rebuild"})
+	if tier != "quick" {
+		others = words
+	}
+	for _, a := range watchers {
+		for _, b := range others {
+			hs = append(hs, c20Harness{threads: [][]string{a, b}})
+		}
+	}
+	hs = append(hs, c20Harness{threads: [][]string{{"watch", "edit"}, {"dispose"}, {"cancel"}}}, c20Harness{threads: [][]string{{"watch"}, {"edit"}, {"dispose"}}}, c20Harness{threads: [][]string{{"watch", "edit"}, {"watch"}, {"dispose"}}})
 	return hs
 }
 
@@ -446,8 +496,8 @@ func c20HasRebuild(w []string) bool {
 }
 
 func runC20(c *Check) {
-	c.Rule = "stateless model checking of the real pkg/api context code under the cooperative scheduler: every word of <=2 operations from {Rebuild, Cancel, Dispose, Edit} on each of 2 client threads (3 single-operation threads; injected failures of each callback kind) against one context whose modules are produced by plugin callbacks; all schedules within the deviation bound whose choice points lie in pkg/api, config.CancelFlag, helpers wait groups and plugin callbacks; invariants are evaluated on the ground-truth event log of every execution; states = executions, transitions = scheduling decisions"
-	c.Assump = []string{"sequentially consistent scheduler; data races are the business of the free-running -race pass", "Serve (net/http, sockets) and the TypeScript side of the stdio protocol are not explored", "preemptions are only placed at operations of pkg/api, internal/config, internal/helpers and plugin callbacks; the inner bundler runs under the scheduler with its default policy"}
+	c.Rule = "stateless model checking of the real pkg/api context code under the cooperative scheduler: every word of <=2 operations from {Rebuild, Cancel, Dispose, Edit} on each of 2 client threads (3 single-operation threads; injected failures of each callback kind), and Watch on a context whose load callbacks register a real watched file that Edit rewrites (watcher goroutine on a virtual timer, early wake-ups explored as deviations) against the other operations against one context whose modules are produced by plugin callbacks; all schedules within the deviation bound whose choice points lie in pkg/api, config.CancelFlag, helpers wait groups and plugin callbacks; invariants are evaluated on the ground-truth event log of every execution; states = executions, transitions = scheduling decisions"
+	c.Assump = []string{"sequentially consistent scheduler; data races are the business of the free-running -race pass", "Serve (net/http, sockets) and the stdio protocol are not explored; Watch is explored with a virtual clock (time.Sleep is a scheduling point, wake-ups in deadline order unless a deviation wakes a sleeper early)", "preemptions are only placed at operations of pkg/api, internal/config, internal/helpers and plugin callbacks; the inner bundler runs under the scheduler with its default policy"}
 	bound := 1
 	if c.Tier != "quick" {
 		bound = 2
@@ -483,7 +533,9 @@ func runC20(c *Check) {
 			return res, sb.String()
 		}
 		for policy := 0; policy < 2; policy++ {
-			ex := &Explorer{Bound: bound, Policy: policy, Run: run, Stop: c.Expired, NoTimers: true}
+			// watch harnesses explore timer deviations too (the watcher waking up early is how its rebuild gets to
+			// overlap the clients' calls)
+			ex := &Explorer{Bound: bound, Policy: policy, Run: run, Stop: c.Expired, NoTimers: !h.usesWatch()}
 			first := true
 			ex.Check = func(x *Exec) {
 				states++
